@@ -428,6 +428,22 @@ func runC07(c *Ctx) {
 	if c.Thorough {
 		per = 12
 	}
+	// directed: a ServerHello whose ADVERTISED revision and the revision it is decoded at lie on different sides of the
+	// thresholds of its gated fields (the fields present are those of the decoding revision, whatever the hello says)
+	for _, adv := range []int{54058, 54372, 54400, 54401, 54460} {
+		for _, v := range []int{54057, 54058, 54371, 54372, 54400, 54401, 54460} {
+			h := proto.ServerHello{Name: "ClickHouse", Major: 23, Minor: 8, Revision: adv, Timezone: "Europe/Moscow", DisplayName: "display", Patch: 300}
+			m := c17Msg{name: "ServerHello", code: 0, rec: recServerHello(h), orig: h, fullRev: 54401, wellForm: true,
+				enc: func(b *proto.Buffer, v int) { h.EncodeAware(b, v) },
+				dec: func(rd *proto.Reader, v int) (string, any, error) {
+					var d proto.ServerHello
+					err := d.DecodeAware(rd, v)
+					return recServerHello(d), d, err
+				}}
+			R.Count("shape:serverhello-advertised-vs-decoding-revision")
+			c07Message(c, r.Fork(), m, v)
+		}
+	}
 	for kind := 0; kind < 10; kind++ {
 		for i := 0; i < per; i++ {
 			m := genMsg(r, kind, true)
